@@ -4,6 +4,7 @@ import (
 	"context"
 	"fmt"
 	"os"
+	"path/filepath"
 	"time"
 
 	"github.com/mithrandie/go-file/v2"
@@ -47,7 +48,7 @@ func (m *ControlFile) Close() error {
 			}
 		}
 
-		VerifPoint("cf.remove")
+		VerifPoint("cf.remove" + filepath.Ext(m.path))
 		if Exists(m.path) {
 			if err := os.Remove(m.path); err != nil {
 				return err
@@ -66,7 +67,7 @@ func (m *ControlFile) CloseWithErrors() []error {
 			}
 		}
 
-		VerifPoint("cf.remove")
+		VerifPoint("cf.remove" + filepath.Ext(m.path))
 		if Exists(m.path) {
 			if err := os.Remove(m.path); err != nil {
 				errs = append(errs, err)
